@@ -260,6 +260,9 @@ func (d *Decoder) readTagObject() (interface{}, error) {
 	clsD := d.clsDefList[idx]
 	typ, ok := d.typMap[clsD.FullClassName]
 	if !ok {
+		if d.skipping > 0 {
+			return d.skipObject(clsD)
+		}
 		return nil, newCodecError("readTagObject", "undefined type: %s", clsD.FullClassName)
 	}
 	return EnsureInterface(d.readObject(typ, clsD))
@@ -274,9 +277,24 @@ func (d *Decoder) ReadLenTagObject(tag byte) (interface{}, error) {
 	clsD := d.clsDefList[i]
 	typ, ok := d.typMap[clsD.FullClassName]
 	if !ok {
+		if d.skipping > 0 {
+			return d.skipObject(clsD)
+		}
 		return nil, newCodecError("ReadLenTagObject", "undefined type: %s", clsD.FullClassName)
 	}
 	return EnsureInterface(d.readObject(typ, clsD))
+}
+
+// skipObject consumes an instance of a class this side has no Go type for, inside a value that is being skipped: the
+// instance takes its reference number like any other object, its field values are read and dropped
+func (d *Decoder) skipObject(cls ClassDef) (interface{}, error) {
+	d.refList = append(d.refList, reflect.Value{})
+	for range cls.FieldName {
+		if _, err := d.ReadData(); err != nil {
+			return nil, newCodecError("skipObject", "field of skipped %s", cls.FullClassName, err)
+		}
+	}
+	return nil, nil
 }
 
 //readObjectDef read object def
@@ -313,7 +331,12 @@ func (d *Decoder) readObject(typ reflect.Type, cls ClassDef) (interface{}, error
 		if err != nil {
 			hlog.Debugf("%s is not found, will skip type ->p %v", fldName, typ)
 			// the value of the unknown field still has to be consumed, or the next field would read it
-			if _, err = d.ReadData(); err != nil {
+			// (it may hold objects and typed containers of types this side has never heard of: while skipping they
+			// are consumed and numbered without being built)
+			d.skipping++
+			_, err = d.ReadData()
+			d.skipping--
+			if err != nil {
 				return nil, newCodecError("readObject", "failed to skip unknown field '%s'", fldName, err)
 			}
 			continue
